@@ -74,23 +74,10 @@ func newExpoHistogramDataPoint[N int64 | float64](
 
 // record adds a new measurement to the histogram. It will rescale the buckets if needed.
 func (p *expoHistogramDataPoint[N]) record(v N) {
-	p.count++
-
-	if !p.noMinMax {
-		if v < p.min {
-			p.min = v
-		}
-		if v > p.max {
-			p.max = v
-		}
-	}
-	if !p.noSum {
-		p.sum += v
-	}
-
 	absV := math.Abs(float64(v))
 
 	if float64(absV) == 0.0 {
+		p.update(v)
 		p.zeroCount++
 		return
 	}
@@ -108,6 +95,8 @@ func (p *expoHistogramDataPoint[N]) record(v N) {
 		if p.scale-scaleDelta < expoMinScale {
 			// With a scale of -10 there is only two buckets for the whole range of float64 values.
 			// This can only happen if there is a max size of 1.
+			// The measurement cannot be recorded in any bucket: do not
+			// account for it in count, min, max or sum either.
 			otel.Handle(errors.New("exponential histogram scale underflow"))
 			return
 		}
@@ -119,7 +108,27 @@ func (p *expoHistogramDataPoint[N]) record(v N) {
 		bin = p.getBin(absV)
 	}
 
+	p.update(v)
 	bucket.record(bin)
+}
+
+// update adds v to the count, min, max and sum of the data point. It needs to
+// be called exactly once for every measurement that is recorded in a bucket
+// or in the zero count.
+func (p *expoHistogramDataPoint[N]) update(v N) {
+	p.count++
+
+	if !p.noMinMax {
+		if v < p.min {
+			p.min = v
+		}
+		if v > p.max {
+			p.max = v
+		}
+	}
+	if !p.noSum {
+		p.sum += v
+	}
 }
 
 // getBin returns the bin v should be recorded into.
